@@ -231,6 +231,14 @@ def run(rep, tier):
         ws_table.check(f3, rep)
         c15.clause_f(f3, rep)
         c15.clause_g(f3, rep)
+    # 'string values equal to the decoded bytes ... placement relative to SIMD block boundaries': the in-place decoder
+    # evaluated byte by byte against a reference decoder (sv/strdecode.py; shared with C05 / C15)
+    from .. import strdecode
+    for cfg5 in (('K1',) if tier == 'quick' else ('K1', 'K3')):
+        try:
+            strdecode.clause(get_facts(cfg5), rep, tier, negatives=False)
+        except AnalysisBroken as ex:
+            rep.broken.append(str(ex))
     try:
         clause_dom_build(get_facts('K1'), rep, tier)
     except AnalysisBroken as ex:
